@@ -149,6 +149,38 @@ func CounterpartHits(p *model.Prog) []counterpartHit {
 				}
 				ast.Inspect(fd.Body, func(n ast.Node) bool {
 					switch x := n.(type) {
+					case *ast.IfStmt:
+						// the guard tests X, the guarded block works on X's twin (same name with the
+						// pair word exchanged, same type) and never mentions X
+						for _, cx := range plainOperandsIn(x.Cond) {
+							cw := words(cx.name)
+							for _, pr := range counterparts {
+								for k := 0; k < 2; k++ {
+									a, b := pr[k], pr[1-k]
+									if !hasWord(cw, a) || hasWord(cw, b) || a == "vps" || b == "vps" {
+										continue // vps/sps/pps form a triple: "sps and pps present, then look at vps" is the normal order
+									}
+									twin := swapWord(cx.name, a, b)
+									usesTwin, usesOwn, condUsesTwin := false, false, false
+									for _, o := range plainOperandsIn(x.Cond) {
+										if strings.EqualFold(strings.Join(words(o.name), ""), twin) {
+											condUsesTwin = true
+										}
+									}
+									for _, o := range plainOperandsIn(x.Body) {
+										if strings.EqualFold(strings.Join(words(o.name), ""), twin) && sameTypeExpr(info, o.e, cx.e) {
+											usesTwin = true
+										}
+										if hasWord(words(o.name), a) {
+											usesOwn = true
+										}
+									}
+									if usesTwin && !usesOwn && !condUsesTwin {
+										out = append(out, counterpartHit{Fn: fname, Target: "block on " + twin, Source: "guard on " + cx.name, Pair: a + "/" + b + ", guard and block disagree", Pos: p.Pos(x.Pos())})
+									}
+								}
+							}
+						}
 					case *ast.AssignStmt:
 						if len(x.Lhs) != len(x.Rhs) || (x.Tok != token.ASSIGN && x.Tok != token.DEFINE) {
 							return true
@@ -315,4 +347,73 @@ func namedLike(arg, prm string) bool {
 		ini += w[:1]
 	}
 	return len(pw) >= 2 && strings.ToLower(arg) == ini
+}
+
+type namedOperand struct {
+	name string
+	e    ast.Expr
+}
+
+// plainOperandsIn: the identifiers and selector chains used inside a node (last name of each).
+func plainOperandsIn(n ast.Node) []namedOperand {
+	var out []namedOperand
+	ast.Inspect(n, func(m ast.Node) bool {
+		switch x := m.(type) {
+		case *ast.SelectorExpr:
+			out = append(out, namedOperand{x.Sel.Name, x})
+			return true
+		case *ast.Ident:
+			out = append(out, namedOperand{x.Name, x})
+		case *ast.KeyValueExpr:
+			// the key of a struct literal is a field name, not a use
+			ast.Inspect(x.Value, func(q ast.Node) bool {
+				switch y := q.(type) {
+				case *ast.SelectorExpr:
+					out = append(out, namedOperand{y.Sel.Name, y})
+				case *ast.Ident:
+					out = append(out, namedOperand{y.Name, y})
+				}
+				return true
+			})
+			return false
+		}
+		return true
+	})
+	return out
+}
+
+// swapWord: the name with word a (as a camel-case word, any case) replaced by b.
+func swapWord(name, a, b string) string {
+	ws := words(name)
+	for i, w := range ws {
+		if w == a {
+			ws[i] = b
+		}
+	}
+	return strings.Join(ws, "")
+}
+
+func sameTypeExpr(info *types.Info, x, y ast.Expr) bool {
+	tx, okx := info.Types[x]
+	ty, oky := info.Types[y]
+	if !okx || !oky {
+		// identifiers used as values are in Uses/Defs
+		return typeOfIdent(info, x) != nil && typeOfIdent(info, y) != nil && types.Identical(typeOfIdent(info, x), typeOfIdent(info, y))
+	}
+	return types.Identical(tx.Type, ty.Type)
+}
+
+func typeOfIdent(info *types.Info, e ast.Expr) types.Type {
+	if id, ok := e.(*ast.Ident); ok {
+		if o := info.Uses[id]; o != nil {
+			return o.Type()
+		}
+		if o := info.Defs[id]; o != nil {
+			return o.Type()
+		}
+	}
+	if tv, ok := info.Types[e]; ok {
+		return tv.Type
+	}
+	return nil
 }
